@@ -1087,9 +1087,10 @@ def corr_synthetic(ctx):
     for k in range(600 if ctx.quick else 6000):
         n = rng.randint(1, 3)
         recs = bytearray()
-        for _ in range(n):
+        nums = rng.sample(range(0, 4096), n)  # distinct atom numbers (a repeated number is one dict key in Python: outside the format)
+        for num in nums:
             r = bytearray(rng.randrange(256) for _ in range(9))
-            r[1] &= 0xf0                      # no neighbours
+            r[0], r[1] = num >> 4, (num & 15) << 4   # no neighbours
             if rng.random() < 0.9:
                 r[3] = (r[3] & 0x80) | rng.randint(1, 118)
             recs += r
